@@ -13,6 +13,7 @@ CONSTANTS
   NoSkew = TRUE
   ArmQuota = 2
   EnableRename = FALSE
+  EnableClear = FALSE
 INIT Init
 NEXT Next
 VIEW View
